@@ -555,3 +555,67 @@ def r02_7_hebrew_molad(ctx: Ctx) -> RuleResult:
 from .c01 import r01_5_per_year_consistency as _r01_5  # noqa: E402
 
 rule("C02")(_r01_5)
+
+
+# ------------------------------------------------------------------------------------------- R02.8 registry round trip
+
+
+@rule("C02")
+def r02_8_registry_round_trip(ctx: Ctx) -> RuleResult:
+    """Calendars are reachable two ways: by ordinal / id (`_for_ordinal_uncached`) and through the parameterised factories
+    (`get_islamic_calendar(pattern, epoch)`, `get_hebrew_calendar(numbering)`).  Both are memoised in one registry keyed by
+    ordinal, so whichever path runs first fixes the object: an arm of the ordinal dispatch that asks the factory for other
+    parameters than the ones the factory itself files under that ordinal makes the calendar behind an id depend on call order and
+    disagree with its name (epoch one day off).  The two tables are read from the match statements and compared."""
+    rr = RuleResult("R02.8", "ordinal dispatch and parameterised calendar factories agree: each ordinal arm passes exactly the parameters the factory files under that ordinal", min_instances=8)
+    M = ctx.M
+    cs = M.cls("CalendarSystem")
+    disp = M.find_method(cs, "_for_ordinal_uncached")
+    if disp is None:
+        raise AnalysisError("CalendarSystem._for_ordinal_uncached missing")
+    from ..kit import bind_args
+
+    def last(e: ast.expr) -> str:
+        return unparse(e).split(".")[-1]
+
+    # factories: (parameter values by name) -> ordinal name, read from their match statements
+    factories: dict[str, dict[tuple, str]] = {}
+    for fname in ("get_islamic_calendar", "get_hebrew_calendar"):
+        f = M.find_method(cs, fname)
+        if f is None:
+            continue
+        table: dict[tuple, str] = {}
+        for m in own_nodes(f.node):
+            if not isinstance(m, ast.Match):
+                continue
+            subj = [x.id for x in (m.subject.elts if isinstance(m.subject, ast.Tuple) else [m.subject]) if isinstance(x, ast.Name)]
+            for c in m.cases:
+                pats = c.pattern.patterns if isinstance(c.pattern, ast.MatchSequence) else [c.pattern]
+                if not all(isinstance(p, ast.MatchValue) for p in pats) or len(pats) != len(subj):
+                    continue
+                key = tuple(sorted(zip(subj, (last(p.value) for p in pats))))
+                ords = [last(x) for b in c.body for x in ast.walk(b) if isinstance(x, ast.Attribute) and unparse(x).startswith("_CalendarOrdinal.")]
+                if len(set(ords)) == 1:
+                    table[key] = ords[0]
+        factories[fname] = table
+    if not factories.get("get_islamic_calendar"):
+        raise AnalysisError("get_islamic_calendar: (epoch, pattern) -> ordinal table not found")
+    for m in own_nodes(disp.node):
+        if not isinstance(m, ast.Match):
+            continue
+        for c in m.cases:
+            if not isinstance(c.pattern, ast.MatchValue):
+                continue
+            ordn = last(c.pattern.value)
+            for x in (y for b in c.body for y in ast.walk(b)):
+                if isinstance(x, ast.Call) and isinstance(x.func, ast.Attribute) and x.func.attr in factories:
+                    f = M.find_method(cs, x.func.attr)
+                    b = bind_args(x, f)
+                    key = tuple(sorted((p, last(a)) for p, a in b.items()))
+                    rr.inst()
+                    filed = factories[x.func.attr].get(key)
+                    if filed == ordn:
+                        rr.ok({"ordinal": ordn, "factory": x.func.attr, "parameters": dict(key)})
+                    else:
+                        rr.fail(disp.qual, f"the arm for {ordn} asks {x.func.attr}({', '.join(f'{p}={v}' for p, v in key)}), which the factory files under {filed or 'no ordinal'}: the calendar behind {ordn} depends on which path created it first", ctx.loc(disp, x))
+    return rr
